@@ -72,6 +72,33 @@ thread_local! {
     pub static IO_CAPACITY: std::cell::Cell<Option<usize>> = std::cell::Cell::new(None);
 }
 
+thread_local! {
+    /// Message #i is not emplaced but written as raw bytes through `UninitSendGuard::as_mut_bytes()` and
+    /// declared initialised with `assume_init()` (a reference-encoded, possibly non-canonical image).
+    pub static RAW_IMAGES: std::cell::RefCell<Vec<Option<Vec<u8>>>> = std::cell::RefCell::new(Vec::new());
+}
+
+fn raw_image(i: usize) -> Option<Vec<u8>> {
+    RAW_IMAGES.with(|p| p.borrow().get(i).cloned().flatten())
+}
+
+/// Initialise a send guard: by the value's emplacer, or from a raw image (as_mut_bytes + assume_init).
+macro_rules! init_guard {
+    ($T:ty, $guard:expr, $i:expr, $m:expr, $route:expr) => {{
+        let mut g = $guard;
+        match raw_image($i) {
+            Some(img) if img.len() <= g.as_mut_bytes().len() => {
+                g.as_mut_bytes()[..img.len()].copy_from_slice(&img);
+                if g.as_bytes()[..img.len()] != img[..] {
+                    panic!("UninitSendGuard::as_bytes() does not show what was written through as_mut_bytes()");
+                }
+                Ok(unsafe { g.assume_init() })
+            }
+            _ => g.new_in_place(ValEmplacer::<$T>::new($m, $route)),
+        }
+    }};
+}
+
 fn capacity_override() -> Option<usize> {
     IO_CAPACITY.with(|c| c.get())
 }
@@ -129,7 +156,7 @@ pub fn send_blocking<T: Shape + ?Sized>(msgs: &[Value], routes: &[u8], max_msg_l
                 Ok(g) => g,
                 Err(e) => return SendRes::AllocErr(e.kind()),
             };
-            let mut guard = match guard.new_in_place(ValEmplacer::<T>::new(m, &route)) {
+            let mut guard = match init_guard!(T, guard, i, m, &route) {
                 Ok(g) => g,
                 Err(e) => return SendRes::Emplace(e.into()),
             };
@@ -247,7 +274,7 @@ pub fn async_send<T: Shape + ?Sized>(msgs: &[Value], routes: &[u8], max_msg_len:
                         Ok(g) => g,
                         Err(e) => return SendRes::AllocErr(e.kind()),
                     };
-                    let mut guard = match guard.new_in_place(ValEmplacer::<T>::new(m, &route)) {
+                    let mut guard = match init_guard!(T, guard, i, m, &route) {
                         Ok(g) => g,
                         Err(e) => return SendRes::Emplace(e.into()),
                     };
@@ -408,7 +435,7 @@ pub fn async_joined<T: Shape + ?Sized>(
                         Ok(g) => g,
                         Err(e) => return SendRes::AllocErr(e.kind()),
                     };
-                    let mut guard = match guard.new_in_place(ValEmplacer::<T>::new(m, &route)) {
+                    let mut guard = match init_guard!(T, guard, i, m, &route) {
                         Ok(g) => g,
                         Err(e) => return SendRes::Emplace(e.into()),
                     };
